@@ -357,6 +357,107 @@ theorem analyze_holderOK_cols (env : Env) (silent : Bool) (s : Stmt) (hp : env.p
   | noop _ _ => simp [fragStmtCols] at hs
   | unsupported _ => simp [fragStmtCols] at hs
 
+/-! ### set operations -/
+
+def partsScoped (env : Env) (parts : List (List Item × List FromExpr)) : Bool :=
+  parts.all (fun b => itemsScoped (fromTabs env b.2) b.1)
+
+def stmtScopedSetop (env : Env) (s : Stmt) : Bool := partsScoped env (stmtParts s)
+
+/-- query level, set operation of flat branches -/
+theorem exWriteQueryUnion_holderOK (env : Env) (isInsert : Bool) (tgt : List String) (first : Branch) (rest : List OpBranch)
+    (hp : env.prov.truthy = false) (hfrag : fragSetop env tgt (.setop first rest) = true)
+    (hsc : partsScoped env (setopParts first rest) = true) :
+    ∃ g, exWriteQuery env isInsert tgt none (.setop first rest) = .ok g ∧ HolderOK g := by
+  obtain ⟨g, hg, hE, hF⟩ := exWriteQueryUnion_exact' env isInsert tgt first rest hp hfrag
+  refine ⟨g, hg, holderOK_of_exact g _ _ _ _ (mkTable_isTable env tgt none ▸ rfl) hE hF (by intro p hp'; cases hp') ?_⟩
+  have hscb : ∀ b ∈ setopParts first rest, itemsScoped (fromTabs env b.2) b.1 = true :=
+    fun b hb => List.all_eq_true.mp hsc b hb
+  have hsub : ∀ b ∈ setopParts first rest, ∀ d ∈ (fromTabs env b.2).map (·.d),
+      d ∈ ((setopParts first rest).flatMap (fun b => fromTabs env b.2)).map (·.d) := by
+    intro b hb d hd
+    obtain ⟨o, ho, rfl⟩ := List.mem_map.mp hd
+    exact List.mem_map.mpr ⟨o, List.mem_flatMap.mpr ⟨b, hb, ho⟩, rfl⟩
+  intro u v huv
+  generalize hpd : setopParts first rest = parts at *
+  cases parts with
+  | nil => simp [specPairsUnion] at huv
+  | cons b1 restp =>
+    simp only [specPairsUnion, List.mem_append, List.mem_flatMap] at huv
+    rcases huv with h1 | ⟨b, hbm, h1⟩
+    · obtain ⟨e, a, k, hit, r, hr, hu, hv⟩ := (mem_specPairs env tgt b1.1 b1.2 u v).mp h1
+      refine ⟨by rw [hv]; exact tgtCol_parent env tgt _, fun d' hd' => ?_⟩
+      have h2 := List.all_eq_true.mp (hscb b1 (by simp)) _ hit
+      simp only [itemScoped, List.all_eq_true] at h2
+      exact hsub b1 (by simp) d' (srcKeys_owner env.importDefault (fromTabs env b1.2) r (h2 r hr) u hu d' hd')
+    · obtain ⟨e, a, k, it1, hii, r, hr, hu, hv⟩ := (mem_unionBranchPairs env tgt b1.1 b u v).mp h1
+      refine ⟨by rw [hv]; exact tgtCol_parent env tgt _, fun d' hd' => ?_⟩
+      have hit : Item.mk e a k ∈ b.1 := (List.of_mem_zip hii).1
+      have h2 := List.all_eq_true.mp (hscb b (by simp [hbm])) _ hit
+      simp only [itemScoped, List.all_eq_true] at h2
+      exact hsub b (by simp [hbm]) d' (srcKeys_owner env.importDefault (fromTabs env b.2) r (h2 r hr) u hu d' hd')
+
+/-- **statement level, set operation**: INSERT / CTAS / CREATE VIEW over a set operation of any number of flat branches, every
+    qualifier in scope of its own branch: the holder projects -/
+theorem analyze_holderOK_setop (env : Env) (silent : Bool) (s : Stmt) (hp : env.prov.truthy = false)
+    (hs : fragStmtSetop env s = true) (hsc : stmtScopedSetop env s = true) :
+    ∃ g, analyze env silent s = .ok g ∧ HolderOK g := by
+  cases s with
+  | insert kd tk tgt cols q br =>
+    cases cols with
+    | some _ => simp [fragStmtSetop] at hs
+    | none =>
+      cases q with
+      | select _ _ _ _ _ _ => simp [fragStmtSetop, fragSetop] at hs
+      | withq _ _ => simp [fragStmtSetop, fragSetop] at hs
+      | setop first rest =>
+        have := exWriteQueryUnion_holderOK env true tgt first rest hp (by simpa [fragStmtSetop] using hs)
+          (by simpa [stmtScopedSetop, stmtParts] using hsc)
+        unfold analyze
+        have hd : dispatch (stmtType (.insert kd tk tgt none (.setop first rest) br)) = some "CreateInsertExtractor" :=
+          disp_insert
+        rw [hd]
+        exact this
+  | ctas tgt orr ine q br =>
+    cases q with
+    | select _ _ _ _ _ _ => simp [fragStmtSetop, fragSetop] at hs
+    | withq _ _ => simp [fragStmtSetop, fragSetop] at hs
+    | setop first rest =>
+      have := exWriteQueryUnion_holderOK env false tgt first rest hp (by simpa [fragStmtSetop] using hs)
+        (by simpa [stmtScopedSetop, stmtParts] using hsc)
+      unfold analyze
+      have hd : dispatch (stmtType (.ctas tgt orr ine (.setop first rest) br)) = some "CreateInsertExtractor" :=
+        disp_create_table
+      rw [hd]
+      exact this
+  | createView tgt orr cols q =>
+    cases cols with
+    | some _ => simp [fragStmtSetop] at hs
+    | none =>
+      cases q with
+      | select _ _ _ _ _ _ => simp [fragStmtSetop, fragSetop] at hs
+      | withq _ _ => simp [fragStmtSetop, fragSetop] at hs
+      | setop first rest =>
+        have := exWriteQueryUnion_holderOK env false tgt first rest hp (by simpa [fragStmtSetop] using hs)
+          (by simpa [stmtScopedSetop, stmtParts] using hsc)
+        unfold analyze
+        have hd : dispatch (stmtType (.createView tgt orr none (.setop first rest))) = some "CreateInsertExtractor" :=
+          disp_create_view
+        rw [hd]
+        exact this
+  | query _ _ => simp [fragStmtSetop] at hs
+  | insertValues _ _ _ => simp [fragStmtSetop] at hs
+  | createTable _ _ _ => simp [fragStmtSetop] at hs
+  | createTableLike _ _ => simp [fragStmtSetop] at hs
+  | update _ _ _ _ _ => simp [fragStmtSetop] at hs
+  | merge _ _ _ _ _ _ => simp [fragStmtSetop] at hs
+  | copy _ _ => simp [fragStmtSetop] at hs
+  | drop _ _ _ => simp [fragStmtSetop] at hs
+  | alterRename _ _ => simp [fragStmtSetop] at hs
+  | renameTable _ => simp [fragStmtSetop] at hs
+  | noop _ _ => simp [fragStmtSetop] at hs
+  | unsupported _ => simp [fragStmtSetop] at hs
+
 /-! ### the fragment does not look at the provider -/
 
 theorem elemTabs_prov (env : Env) (pv : ProvView) (e : FromElem) : elemTabs { env with prov := pv } e = elemTabs env e := by
@@ -397,6 +498,23 @@ theorem fragStmtCols_prov (env : Env) (pv : ProvView) (s : Stmt) :
   cases s <;> first | rfl | skip
   all_goals (rename_i cols _ _; cases cols <;> simp only [fragStmtCols, hq])
   all_goals simp only [fragStmtCols, hq]
+
+theorem fragStmtSetop_prov (env : Env) (pv : ProvView) (s : Stmt) :
+    fragStmtSetop { env with prov := pv } s = fragStmtSetop env s := by
+  have hq : ∀ tgt q, fragSetop { env with prov := pv } tgt q = fragSetop env tgt q := by
+    intro tgt q
+    cases q with
+    | select _ _ _ _ _ _ => rfl
+    | setop first rest => simp only [fragSetop, fromTabs_prov]; rfl
+    | withq _ _ => rfl
+  cases s <;> first | rfl | skip
+  all_goals (rename_i cols _ _; cases cols <;> simp only [fragStmtSetop, hq])
+  all_goals simp only [fragStmtSetop, hq]
+
+theorem stmtScopedSetop_prov (env : Env) (pv : ProvView) (s : Stmt) :
+    stmtScopedSetop { env with prov := pv } s = stmtScopedSetop env s := by
+  unfold stmtScopedSetop partsScoped
+  simp only [fromTabs_prov]
 
 theorem stmtScoped_prov (env : Env) (pv : ProvView) (s : Stmt) : stmtScoped { env with prov := pv } s = stmtScoped env s := by
   unfold stmtScoped
